@@ -100,7 +100,9 @@ structure NodeRec where
   words : List Bytes := []
   loc : Loc := {}
   delim : Nat := 0
-  deriving Repr, Inhabited
+  deriving Repr
+
+instance : Inhabited NodeRec := ⟨{}⟩
 
 abbrev Heap := Addr → NodeRec
 
